@@ -10,6 +10,7 @@ From Coq Require Import List NArith Bool.
 From Conductor Require Import Lib.Str Model.Store Proofs.StoreSpec Proofs.StoreProofs Proofs.StoreInv
   Proofs.StoreSteps Proofs.StoreThms.
 From Conductor Require Import Gen.Generated Proofs.GenTie.
+From Conductor Require Import Lib.Regex Lib.RegexBisim Lib.PyRegex Model.Ident Proofs.IdentSpec Proofs.IdentProofs.
 Import ListNotations.
 Open Scope N_scope.
 
@@ -82,6 +83,24 @@ Theorem C08_no_touch : forall clock s l,
   forall r, In r (s_rows s) -> lookup (row_key r) (s_dirs (apply clock l s)) = lookup (row_key r) (s_dirs s).
 Proof. exact no_touch_reach. Qed.
 Print Assumptions C08_no_touch.
+
+(* The model's step for `cond restore` touches no directory of a recorded version (C08_no_touch); in
+   the code, restore additionally creates and removes its staging directory
+   cond-out/<ARCHIVE_STAGING>.  With the name read from config.py on this run, that directory is
+   neither the output directory of any task nor a package directory on the path to one: for every
+   identifier the parser accepts, the first path component below cond-out differs from it.
+   (D23: the name used to be `archive-tmp`, a legal package name -- every restore wiped the recorded
+   outputs of a package of that name; Refuted/StagingOld.v keeps the counterexample.) *)
+Lemma c08_tie_name : tie_ok name_regex doc_name_re = true.
+Proof. vm_compute. reflexivity. Qed.
+Lemma c08_tie_ident : tie_ok task_identifier_regex doc_ident_re = true.
+Proof. vm_compute. reflexivity. Qed.
+Lemma c08_staging_name_ok : staging_name_ok = true.
+Proof. vm_compute. reflexivity. Qed.
+Theorem C08_staging_is_no_output_location : forall req s i v,
+  from_str req s = Some i -> nth_error (out_path i v) 1 <> Some cfg_ARCHIVE_STAGING.
+Proof. exact (fun req s i v H => staging_outside i v (from_str_wf c08_tie_ident req s i H) c08_staging_name_ok). Qed.
+Print Assumptions C08_staging_is_no_output_location.
 
 (* Tie to the source, re-checked on every run: the timestamp rule of the model is the one TRANSLATED
    from VersionIndex.generate_new_output_version in the working tree (Gen/Generated.v gen_new_version) *)
